@@ -224,7 +224,7 @@ type ChildResult struct {
 func (c *Ctx) RunChild(mode string, args any, timeout time.Duration, extraEnv ...string) *ChildResult {
 	res := c.runChildOnce(mode, args, timeout, extraEnv...)
 	c.mu.Lock()
-	giveUp := c.retryExpired >= 2 // retries that expired again: this is not load, something really hangs
+	giveUp := c.retryExpired >= 2 || os.Getenv("VERIF_NO_RETRY") != "" // retries that expired again: this is not load, something really hangs
 	c.mu.Unlock()
 	if res.TimedOut && !giveUp {
 		// the wall-clock watchdog is not a verdict: on a loaded machine a healthy batch can exceed it.
